@@ -241,7 +241,7 @@ def sigEvent (e : Str) : Str :=
   if e.isEmpty || lower e == Engine.T "none" then Engine.T "NONE" else if lower e == Engine.T "any" then Engine.T "ANY" else e
 
 def caseTags (base : String) (camel : String) (snake : String) (v : Str) : List (Str × Str) :=
-  [ (Engine.T base, v), (Engine.T camel, camelSmall v), (Engine.T snake, snakeCase v) ]
+  [ (Engine.T camel, camelSmall v), (Engine.T base, v), (Engine.T snake, snakeCase v) ]
 
 structure Model where
   table : List Table.Row
@@ -349,7 +349,14 @@ def expandCond (ut : List (Str × Str)) (brs : List (Str × List BItem)) (els : 
   if taken.isEmpty then (match els with | some e => e | none => [])
   else (taken.map (·.2)).flatten
 
-def forItems (p : ForParam) (ut : List (Str × Str)) : Option (List Str) :=
+/-- "first is the law": the inline defaults of user-tag driven FOR blocks, collected over all
+    files in order; the first default given for a tag serves every FOR over that tag -/
+def forDefaults (files : List (List Item)) : List (Str × Str) :=
+  (files.flatten).foldl (fun acc it => match it with
+    | .loop _ (.userTag n (some d)) _ => if acc.any (fun kv => kv.1 == n) then acc else acc ++ [(n, d)]
+    | _ => acc) []
+
+def forItems (fd : List (Str × Str)) (p : ForParam) (ut : List (Str × Str)) : Option (List Str) :=
   let ofRaw (raw : Str) : Option (List Str) :=
     let isCsv := (find Engine.COMMA raw).isSome
     let isNum := isNumeric (strip raw)
@@ -359,17 +366,17 @@ def forItems (p : ForParam) (ut : List (Str × Str)) : Option (List Str) :=
   match p with
   | .list raw => ofRaw raw
   | .count raw => ofRaw raw
-  | .userTag n dflt => match lookupS ut n with
+  | .userTag n _ => match lookupS ut n with
     | some v => ofRaw v
-    | none => dflt.bind ofRaw
+    | none => (lookupS fd n).bind ofRaw
 
 def hasTagNamed (n : Str) : BItem → Bool
   | .blank _ => false
   | .line l => l.any (fun s => match s with | .tag m _ => m == n | .lit _ => false)
 
 /-- **FOR**: FIRST line once before, LAST line once after, the other lines once per item -/
-def expandLoop (ut : List (Str × Str)) (p : ForParam) (body : List BItem) : Option (List BItem) :=
-  match forItems p ut with
+def expandLoop (fd ut : List (Str × Str)) (p : ForParam) (body : List BItem) : Option (List BItem) :=
+  match forItems fd p ut with
   | none => none
   | some items =>
     let firstL := body.find? (hasTagNamed (Engine.T "FIRST"))
@@ -384,20 +391,20 @@ def expandLoop (ut : List (Str × Str)) (p : ForParam) (body : List BItem) : Opt
 
 /-! ### the whole expansion of one file -/
 
-def expandItem (m : Model) (ut : List (Str × Str)) : Item → Option (List BItem)
+def expandItem (m : Model) (fd ut : List (Str × Str)) : Item → Option (List BItem)
   | .b i => some [i]
   | .block k _ body => some (expandBlock m k body)
   | .pst _ body => some (expandPst m.table body)
   | .cond _ brs els => some (expandCond ut brs els)
-  | .loop _ p body => expandLoop ut p body
+  | .loop _ p body => expandLoop fd ut p body
 
 /-- lines of the generated file before the TAB filter: blocks, conditionals and loops are
     expanded, then every remaining tag goes through the user-tag rule; `none` where the engine
     rejects the template (FOR arguments that are neither a list nor a count) -/
-def expandFile (globals : List (Str × Str)) (m : Model) (ut : List (Str × Str)) (items : List Item) : Option (List Str) :=
+def expandFile (globals : List (Str × Str)) (m : Model) (fd ut : List (Str × Str)) (items : List Item) : Option (List Str) :=
   let first := (m.table.head?.map (·.src)).getD (Engine.T "NO TT PRESENT!")
   let st0 := [(Engine.T "<<<STATE_0>>>", first), (Engine.T "<<<state_0>>>", camelSmall first)]
-  (Engine.mapOpt (expandItem m ut) (load (globals ++ st0) items)).map (fun ls => ls.flatten.map (userText ut))
+  (Engine.mapOpt (expandItem m fd ut) (load (globals ++ st0) items)).map (fun ls => ls.flatten.map (userText ut))
 
 /-- the file's text as written -/
 def fileText (lines : List Str) : Str := (lines.map expandTabs).flatten
